@@ -33,7 +33,8 @@ def run(repo, rep, tier):
     rep.decided = ["D1 LEAP_TABLE == IERS list", "D2 lookup/threshold on civil year-month; both directions start 1972-01",
                    "D3 override symmetric", "D4 Delta-T joints < 1 s and 1972-2018 band 3.5 s",
                    "D5 every keyword combination reaches the right branch (explicit leap_seconds wins over utc=True)"]
-    rep.undecided = ["1 ms read-back"]
+    rep.undecided = ["UTC read-back off the grid (other times of day); leap_seconds=0 is documented as `no override`"]
+    rep.decided.append("D7 offset and 1 ms read-back on the property's grid (every month 1950..2100 x day x time, overrides 0..60) by exact execution (R-UTCGRID)")
     rep.decided.append("D6 leap_seconds(year, month) selects the IERS entry for every (year, month)")
     rep.assumptions = ["IERS list embedded in the checker", "32.184 s + 10 s from the property text"]
     d1_table(repo, rep)
@@ -42,6 +43,7 @@ def run(repo, rep, tier):
     d4_deltat(repo, rep, tier)
     d5_kwpaths(repo, rep)
     d6_step(repo, rep)
+    utc_grid(repo, rep, tier)
     # the TT -> UTC read-back shifts the date through get_doy / doy2date: their day-number tables (rule shared with C16)
     from .c16 import doy_tables
     rep.fn("Epoch", "Epoch.get_doy"); rep.fn("Epoch", "Epoch.doy2date")
@@ -267,8 +269,17 @@ def d3_override(repo, rep):
         in_a = set(T.walk(a[2]))
         syms_o = [L] + [x for x in T.walk(o[2]) if x not in in_a and x[0] in ("sym", "idx", "phi")]
         ok = False
+
+        def table_value(x):
+            """a selection among table look-ups (every leaf of the phi tree is a call of the table function; the conditions
+            may be anything): still `the table value`, e.g. the entry of the UTC month rather than of the TT month"""
+            return x[0] == "phi" and all(leaf[0] == "call" and leaf[1] == auto_call for _, leaf in phi_leaves(x))
         for s in syms_o:
-            if T.subst(a[2], {call: s}) == o[2] and T.subst(a[3], {call: s}) == o[3]:
+            mp = {call: s}
+            sel = [x for x in T.walk(a[2]) if table_value(x)]
+            for x in sorted(sel, key=lambda z: -len(T.show(z))):
+                mp.setdefault(x, s)
+            if T.subst(a[2], mp) == o[2] and T.subst(a[3], mp) == o[3]:
                 ok = True
                 break
         same_guard = a[1] == o[1]
@@ -280,6 +291,155 @@ def d3_override(repo, rep):
                           "the explicit leap_seconds branch differs from the automatic branch by more than the table value "
                           "(same terms: %s, same guard: %s)" % (ok, same_guard))
     rep.floor("override branch pairs", n, 2)
+
+
+# --------------------------------------------------------------------------------------------------------------------------
+# R-UTCGRID: exact execution of construction (UTC -> TT) and read-back (TT -> UTC) on the property's own grid
+# --------------------------------------------------------------------------------------------------------------------------
+_UTC_TERMS = {}
+GRID_TIMES = ((0, "0h"), (43200, "12h"), (86399, "23:59:59"))
+
+
+def _utc_terms(root):
+    if root not in _UTC_TERMS:
+        from ..frontend import Repo
+        from ..rules import repo_prims
+        from .c16 import stdlib_prims
+        repo = Repo(root) if root else Repo()
+        fn_ = repo.func("Epoch", "Epoch._compute_jde")
+        nm = [a.arg for a in fn_.args.args]
+        Y, M, D, L, J = T.sym("NUM_y"), T.sym("NUM_m"), T.sym("NUM_d"), T.sym("NUM_L"), T.sym("NUM_J")
+        base = {nm[0]: T.sym("self"), nm[1]: Y, nm[2]: M, nm[3]: D}
+        tj_auto = ret_term(repo, "Epoch", "Epoch._compute_jde", arg_terms=dict(base, utc2tt=("bool", True), leap_seconds=T.ZERO, local=("bool", False)))
+        tj_plain = ret_term(repo, "Epoch", "Epoch._compute_jde", arg_terms=dict(base, utc2tt=("bool", False), leap_seconds=T.ZERO, local=("bool", False)))
+        tj_over = ret_term(repo, "Epoch", "Epoch._compute_jde", arg_terms=dict(base, utc2tt=("bool", False), leap_seconds=L, local=("bool", False)))
+        tg_auto = ret_term(repo, "Epoch", "Epoch.get_date", arg_terms={"self": ("epoch", J), "kwargs": _kwd(utc=("bool", True))})
+        tg_over = ret_term(repo, "Epoch", "Epoch.get_date", arg_terms={"self": ("epoch", J), "kwargs": _kwd(leap_seconds=L)})
+        _UTC_TERMS[root] = (tj_auto, tj_plain, tj_over, tg_auto, tg_over, repo_prims(repo, stdlib_prims(repo)))
+    return _UTC_TERMS[root]
+
+
+def _utc_chunk(job):
+    """worker: (root, [(year, month, day, seconds, L or None)]) -> (n, problems[(kind, class key, year, text)])"""
+    import calendar as _cal
+    from ..rules import eval_exact, NotEvaluable
+    root, pts = job
+    tj_auto, tj_plain, tj_over, tg_auto, tg_over, prims = _utc_terms(root)
+    Y, M, D, L, J = T.sym("NUM_y"), T.sym("NUM_m"), T.sym("NUM_d"), T.sym("NUM_L"), T.sym("NUM_J")
+    ms = Fraction(1, 86400000)
+    probs = []
+    n = 0
+    for (y, m, d, sec, ov) in pts:
+        dd = Fraction(d) + Fraction(sec, 86400)
+        dkind = "day1" if d == 1 else ("last" if d == _cal.monthrange(y, m)[1] else "mid")
+        tkind = dict(GRID_TIMES).get(sec, str(sec))
+        cls = "%s-%s" % (dkind, tkind)
+        env = {Y: Fraction(y), M: Fraction(m), D: dd}
+        if ov is not None:
+            env[L] = Fraction(ov)
+        try:
+            jp = eval_exact(tj_plain, dict(env, **{"$memo": {}}), prims)
+            jf = eval_exact(tj_auto if ov is None else tj_over, dict(env, **{"$memo": {}}), prims)
+            e2 = {J: jf, "$memo": {}}
+            if ov is not None:
+                e2[L] = Fraction(ov)
+            g = eval_exact(tg_auto if ov is None else tg_over, e2, prims)
+        except NotEvaluable as e:
+            return n, [("not-evaluable", "", y, "%s at %d-%02d-%02d %s" % (e, y, m, d, tkind))]
+        except (TypeError, ValueError, ZeroDivisionError, IndexError, KeyError) as e:
+            probs.append(("error", cls, y, "%s: %s at %d-%02d-%02d %s UTC%s" % (type(e).__name__, e, y, m, d, tkind, "" if ov is None else " leap_seconds=%d" % ov)))
+            continue
+        n += 1
+        pos = Fraction(y) + Fraction(m - 1, 12)
+        if ov is None:
+            count = max([c for k, c in IERS if Fraction(str(k)) <= pos], default=0)
+        else:
+            count = ov
+        want = (Fraction("42.184") + count) / 86400 if (y >= 1972 and (ov is None or ov != 0)) else Fraction(0)
+        tag = "" if ov is None else " with leap_seconds=%d" % ov
+        if jf - jp != want:
+            probs.append(("offset" if ov is None else "offset-override", cls, y,
+                          "Epoch(%d, %d, %d, %s, utc=True%s) is %.6f s later than the same date taken as TT; 32.184 + 10 + %s = %.3f s expected"
+                          % (y, m, d, tkind, tag, float((jf - jp) * 86400), ("%d leap seconds inserted before %d-%02d" % (count, y, m)) if ov is None else "the supplied %d" % ov,
+                             float(want * 86400))))
+            continue
+        ok = isinstance(g, tuple) and len(g) == 3 and g[0] == y and g[1] == m and not isinstance(g[2], bool) and abs(Fraction(g[2]) - dd) <= ms
+        if not ok:
+            try:
+                shown = "(%d, %d, %.9f)" % (g[0], g[1], float(g[2]))
+            except Exception:
+                shown = repr(g)[:80]
+            probs.append(("readback" if ov is None else "readback-override", cls, y,
+                          "%d-%02d-%02d %s UTC%s reads back (utc=True) as %s, i.e. day %.9f expected: off by %.3f s"
+                          % (y, m, d, tkind, tag, shown, float(dd),
+                             float((Fraction(g[2]) - dd) * 86400) if isinstance(g, tuple) and len(g) == 3 and g[0] == y and g[1] == m else float("nan"))))
+    return n, probs
+
+
+def utc_grid(repo, rep, tier):
+    """R-UTCGRID.  Construction with utc=True and read-back with utc=True are rational recipes (floors, the leap-second table,
+    day-of-year tables); their extracted terms - with the library's own leap_seconds / get_doy / doy2date / is_leap terms
+    substituted for the calls - are executed exactly on the grid the property names: every (year, month) 1950..2100 x days 1, 15,
+    last x 0h, 12h, 23:59:59 (quick tier: the month-boundary cells of every month and the whole grid around 1972 and 2017),
+    and with explicit leap_seconds overrides 0..60.  Decided per cell: the offset to the same date taken as TT is exactly
+    32.184 + 10 + IERS count (0 before 1972; the supplied value with an override), and the read-back is the civil date to 1 ms."""
+    import calendar as _cal
+    rep.rule("R-UTCGRID", "Epoch(date, utc=True) - Epoch(date) == 32.184 s + 10 s + leap seconds inserted before the date (0 before 1972) and "
+                          "get_date(utc=True) returns the date to 1 ms, on every cell of the (year, month) x day x time grid 1950..2100; "
+                          "same with every leap_seconds override 0..60 (exact execution of the extracted terms)")
+    site = "Epoch.Epoch._compute_jde/get_date"
+    full = tier == "thorough"
+    pts = []
+    for y in range(1950, 2101):
+        for m in range(1, 13):
+            last = _cal.monthrange(y, m)[1]
+            for d in (1, 15, last):
+                for sec, _ in GRID_TIMES:
+                    if full or (d == 1 and sec == 0) or (d == last and sec == 86399) or y in (1971, 1972, 1973, 2016, 2017) or (m in (6, 7) and d == 15 and sec == 43200):
+                        pts.append((y, m, d, sec, None))
+    n_auto = len(pts)
+    ov_months = [(1971, 12), (1972, 1), (1972, 6), (1972, 7), (1990, 12), (2017, 1), (2050, 6)]
+    if full:
+        ov_months += [(y, m) for y in (1970, 1973, 1974, 1975, 2015, 2016, 2018, 2099, 2100) for m in range(1, 13)]
+    for (y, m) in ov_months:
+        last = _cal.monthrange(y, m)[1]
+        for ov in range(0, 61):
+            for d in (1, 15, last):
+                for sec, _ in GRID_TIMES:
+                    if full or (d, sec) in ((1, 0), (15, 43200), (last, 86399)):
+                        pts.append((y, m, d, sec, ov))
+    if full:
+        for y in range(1950, 2101):
+            for m in range(1, 13):
+                last = _cal.monthrange(y, m)[1]
+                for ov in (1, 27, 60):
+                    for (d, sec) in ((1, 0), (15, 43200), (last, 86399)):
+                        pts.append((y, m, d, sec, ov))
+    size = 400
+    jobs = [(repo.root, pts[i:i + size]) for i in range(0, len(pts), size)]
+    from concurrent.futures import ProcessPoolExecutor
+    try:
+        with ProcessPoolExecutor(max_workers=14 if full else 8) as ex:
+            results = list(ex.map(_utc_chunk, jobs))
+    except NotImplementedError:
+        results = [_utc_chunk(j_) for j_ in jobs]
+    n = sum(r[0] for r in results)
+    probs = [p for r in results for p in r[1]]
+    ne = [p for p in probs if p[0] == "not-evaluable"]
+    if ne:
+        rep.inconcl("R-UTCGRID", site, "terms not executable: " + ne[0][3])
+        return
+    by = {}
+    for kind, cls, y, text in probs:
+        by.setdefault((kind, cls), []).append((y, text))
+    for (kind, cls), lst in sorted(by.items()):
+        rep.violation("R-UTCGRID", site, "%s:%s" % (kind, cls), lst[0][1] + "  (%d grid cell(s) of this kind fail, years %s)"
+                      % (len(lst), ", ".join(str(y_) for y_ in sorted(set(y_ for y_, _ in lst))[:12])), construct="%s %s" % (kind, cls), obligation=True)
+    if not probs:
+        rep.ok("R-UTCGRID", site, "%d grid cells executed exactly (%d automatic, %d with an explicit leap_seconds in 0..60): offset == 42.184 s + count from 1972, 0 before; "
+               "read-back returns the civil date to 1 ms%s" % (n, n_auto, n - n_auto, " (full grid 1950..2100)" if full else " (month-boundary cells of every month 1950..2100; full grid 1971-73, 2016-17)"),
+               obligation=True)
+    rep.floor("UTC grid cells executed", n, 16308 if full else 5000)
 
 
 def d6_step(repo, rep):
